@@ -122,6 +122,17 @@ def run(ck):
     nz = extract_zip_sweep(ck, crate("rs", CB), re.compile(r"sigma_protocols::(enc_trans|com_enc_eq|elgamal_dec|com_eq|dlog)::.*SigmaProtocol>::extract_commit_message$"))
     ck.floor("CMP", "chunk statement/response zips in the accounting proof", nz, 2)
 
+    # c''. decrypted chunks are LIMBS that may exceed their nominal width after homomorphic aggregation (the sum of two 32-bit
+    #      chunks can be 2^32): they are recombined by addition, never by bit-wise or
+    for pth in [x for x in crate("rs", CB).paths() if re.search(r"encrypted_transfers::decrypt_amount$|elgamal::ChunkSize::chunks_to_u64$", x)]:
+        g = Fn(crate("rs", CB).get(pth))
+        o = g.origins(0, deep=True)
+        bitwise = [a[1] for a in o if a[0] == "bin" and a[1] in ("BitOr", "BitXor")]
+        adds = any(a[0] == "bin" and a[1].startswith("Add") for a in o) or has_call_origin(o, r"chunks_to_u64$|::checked_add$|::wrapping_add$")
+        ck.ob("DEFUSE", pth, "chunks-recombined-by-addition", adds and not bitwise,
+              "the result is the sum of the shifted limbs" if adds and not bitwise else
+              "the limbs are combined with %s: a carry out of the low chunk (possible after aggregation) is lost or overlaps the next limb" % (bitwise or "something other than addition"), g.loc())
+
     # d. chunking constants
     c = crate("rs", CB)
     adt = c.adts.get(CB + "::encrypted_transfers::types::EncryptedAmount")
